@@ -338,6 +338,18 @@ func (e *Engine) checkPreSat(vc *VC, cfg SolverCfg, base string) string {
 // it, and at least one return must be reachable. A contradictory set of hypotheses otherwise "proves" everything
 // after it. Only a definite `unsat` counts; sat/unknown/timeouts pass.
 func (e *Engine) checkReach(vc *VC, cfg SolverCfg, base string, proved map[*Obligation]bool) []string {
+	// phase 1 asks only the cheap-to-refute questions ("is the path still feasible after this assumption", "is this
+	// return reachable") with a short timeout; only if one of them is answered `unsat` does phase 2 pose the full
+	// set (including "was the path feasible before") with a longer one.
+	vac, suspicious := e.reachPhase(vc, cfg, base, proved, 1, 150)
+	if !suspicious {
+		return vac
+	}
+	vac, _ = e.reachPhase(vc, cfg, base, proved, 2, 1000)
+	return vac
+}
+
+func (e *Engine) reachPhase(vc *VC, cfg SolverCfg, base string, proved map[*Obligation]bool, phase, tmo int) ([]string, bool) {
 	var b strings.Builder
 	for _, ax := range vc.e.axioms {
 		b.WriteString("(assert " + ax + ")\n")
@@ -348,18 +360,6 @@ func (e *Engine) checkReach(vc *VC, cfg SolverCfg, base string, proved map[*Obli
 	}
 	var qs []q
 	seen := map[string]bool{}
-	lastPos := 0
-	for _, m := range vc.returnMarks {
-		if m.pos > lastPos {
-			lastPos = m.pos
-		}
-	}
-	nameOf := func(m reachMark) string {
-		if m.pos == lastPos && lastPos > 0 {
-			return "last-return"
-		}
-		return "return"
-	}
 	ask := func(pc, name string, ret bool) {
 		if pc == "" || pc == "true" || pc == "false" || seen[pc] || len(qs) >= 80 {
 			return
@@ -373,10 +373,18 @@ func (e *Engine) checkReach(vc *VC, cfg SolverCfg, base string, proved map[*Obli
 		what          string
 	}
 	var pairs []*pairQ
+	lastLen, lastPC, lastIdx := -1, "", -1
 	askAlways := func(pc, name string) int {
-		if pc == "" || pc == "false" || len(qs) >= 160 {
+		if pc == "" || pc == "false" || len(qs) >= 70 {
 			return -1
 		}
+		if phase == 1 && strings.HasPrefix(name, "before:") {
+			return -1
+		}
+		if b.Len() == lastLen && pc == lastPC {
+			return lastIdx // nothing was assumed since the same question was asked
+		}
+		defer func() { lastLen, lastPC, lastIdx = b.Len(), pc, len(qs)-1 }()
 		if pc == "true" {
 			b.WriteString("(push 1)\n(check-sat)\n(pop 1)\n")
 		} else {
@@ -406,7 +414,7 @@ func (e *Engine) checkReach(vc *VC, cfg SolverCfg, base string, proved map[*Obli
 				if m.pc == "true" {
 					trivialReturn = true
 				}
-				ask(m.pc, nameOf(m), true)
+				ask(m.pc, "return", true)
 			}
 		}
 		if it.Ob == nil {
@@ -414,9 +422,14 @@ func (e *Engine) checkReach(vc *VC, cfg SolverCfg, base string, proved map[*Obli
 			continue
 		}
 		ob := it.Ob
-		k := ob.Kind
-		if (strings.HasPrefix(k, "callsite") || strings.HasPrefix(k, "assert") || strings.HasPrefix(k, "inv-")) && !ob.Skip {
-			ask(ob.PC, ob.Name, false)
+		if ob.Skip && ob.Term != "true" && ob.PC != "" && ob.PC != "false" && len(pairs) < 60 {
+			// an obligation outside the unit's claim is assumed, not proved: assuming it must not make its own
+			// program point unreachable (it would, if it fails on every path through that point)
+			pq := &pairQ{before: askAlways(ob.PC, "before:"+ob.Name), after: -1, what: "assuming the unclaimed obligation " + ob.Name}
+			b.WriteString("(assert " + ob.Term + ")\n")
+			pq.after = askAlways(ob.PC, "after:"+ob.Name)
+			pairs = append(pairs, pq)
+			continue
 		}
 		if ob.Term != "true" && (proved[ob] || ob.Skip) {
 			// only what has been discharged (or is outside this unit's claim) is assumed: an obligation that failed
@@ -437,19 +450,20 @@ func (e *Engine) checkReach(vc *VC, cfg SolverCfg, base string, proved map[*Obli
 			if m.pc == "true" {
 				trivialReturn = true
 			}
-			ask(m.pc, nameOf(m), true)
+			ask(m.pc, "return", true)
 		}
 	}
 	if len(qs) == 0 {
-		return nil
+		return nil, false
 	}
-	file := writeFile(cfg.WorkDir, base+".reach.smt2", finishScript(vc.decls, b.String()))
+	file := writeFile(cfg.WorkDir, fmt.Sprintf("%s.reach%d.smt2", base, phase), finishScript(vc.decls, b.String()))
 	if os.Getenv("GOVC_KEEP") == "" {
 		defer os.Remove(file)
 	}
-	out, _ := runSolver(solvers[0], file, 1000, time.Duration(1000*len(qs)+15000)*time.Millisecond)
+	out, _ := runSolver(solvers[0], file, tmo, time.Duration(tmo*len(qs)+15000)*time.Millisecond)
 	rs := parseResults(out)
 	var vac []string
+	suspicious := false
 	rets, deadRets := 0, 0
 	for i, qq := range qs {
 		st := "unknown"
@@ -460,33 +474,23 @@ func (e *Engine) checkReach(vc *VC, cfg SolverCfg, base string, proved map[*Obli
 			rets++
 			if st == "unsat" {
 				deadRets++
-				if qq.name == "last-return" {
-					vc.note("the function's final return statement is unreachable under the collected hypotheses")
-				}
 			}
-			continue
-		}
-		if strings.HasPrefix(qq.name, "before:") || strings.HasPrefix(qq.name, "after:") {
-			continue
-		}
-		if st == "unsat" {
-			// a loop or call site in dead code (a type-switch arm of a generic instance, a branch on a constant
-			// build-configuration flag) is legitimate: reported as a note, not as a violation
-			vc.note("unreachable program point under the collected hypotheses: %s", qq.name)
 		}
 	}
-	// a callee contract whose application turns a feasible path into an infeasible one contradicts what is known
-	// at the call site (inconsistent contract, or inconsistent built-in facts)
+	// a callee contract (or an assumed unclaimed obligation) whose application turns a feasible path into an
+	// infeasible one contradicts what is known at that point (inconsistent contract or built-in facts)
 	for _, pq := range pairs {
-		if pq.before < 0 || pq.after < 0 || pq.before >= len(rs) || pq.after >= len(rs) {
+		if pq.after < 0 || pq.after >= len(rs) || rs[pq.after] != "unsat" {
 			continue
 		}
-		if rs[pq.before] != "unsat" && rs[pq.after] == "unsat" {
+		suspicious = true
+		if pq.before >= 0 && pq.before < len(rs) && rs[pq.before] != "unsat" {
 			vac = append(vac, vc.fn.String()+"#inconsistent: "+pq.what+" makes the path infeasible")
 		}
 	}
 	if rets > 0 && deadRets == rets && !trivialReturn {
+		suspicious = true
 		vac = append(vac, vc.fn.String()+"#return (no return is reachable)")
 	}
-	return vac
+	return vac, suspicious
 }
